@@ -1,0 +1,287 @@
+//go:build verif
+
+// Contracts for the load-time check pass of package runtime (comment-only; read by /verif/plvc).
+//
+// C08: every traversal function visits every child of its node and accepts only when every
+// visit accepted (callarg/callres/ncalls/callobs speak about the direct calls made by the
+// function body); the dispatcher hands every compound node kind to its traversal function;
+// a call is accepted only when the function is registered, its arguments were accepted and
+// its own checker accepted; break/continue are accepted exactly inside a loop body
+// (`depth` = number of enclosing loop bodies at the time of a visit).
+
+package runtime
+
+//@ default nonnil *ContextCheck
+//@ default nonnil *ast.AttrExpr
+//@ default nonnil *ast.IfStmtElem
+//@ default nonnil *Script
+
+// what a per-function checker may write on pre-existing objects
+//@ frame checkerFrame = ctx.callRef, elemsof(*ast.CallExpr), ast.CallExpr.Grok, ast.CallExpr.PrivateData,
+//@ | Stack.CheckPattern, maptype(map[string]*grok.GrokPattern), elemsof(any), elemsof(grok.PatternStorageIface),
+//@ | errchain.PlError.PosChain, elemsof(errchain.Position)
+
+// what the check pass may write: the above, the scope cursor and the loop-depth bookkeeping.
+// Never the syntax tree's shape (node kinds, child lists), the function tables or the script.
+//@ frame checkFrame = checkerFrame, ctx.stackCur, Stack.Data, maptype(map[string]*Varb),
+//@ | ContextCheck.forstmt, ContextCheck.breakstmt, ContextCheck.continuestmt, elemsof(bool)
+
+//@ functype FuncCheck
+//@ modifies checkerFrame
+
+// function tables never hold a nil checker
+//@ typeinv[C08] mapvalues map[string]FuncCheck nonnil
+
+//@ func (*Task).GetFuncCheck
+//@ props C08
+//@ pure
+//@ ensures result1 <==> dom(ctx.funcCheck, key)
+//@ ensures result1 ==> result0 == ctx.funcCheck[key] && result0 != nil
+
+//@ func (*Task).GetFuncCall
+//@ ensures[C08] result1 <==> dom(ctx.funcCall, key)
+
+//@ func (*Task).SetCallRef
+//@ props C08
+//@ modifies ctx.callRef, elems(ctx.callRef)
+//@ ensures len(ctx.callRef) == old(len(ctx.callRef)) + 1 && ctx.callRef[len(ctx.callRef)-1] == expr
+//@ ensures forall i :: 0 <= i && i < old(len(ctx.callRef)) ==> ctx.callRef[i] == old(ctx.callRef[i])
+
+//@ func InitCtxForCheck
+//@ props C08
+//@ requires script != nil && ctx.Regs.count <= 6
+//@ modifies ctx.stackHeader, ctx.stackCur, ctx.Regs, ctx.funcCall, ctx.funcCheck, ctx.callRef, ctx.loopBreak, ctx.loopContinue, ctx.procExit, ctx.name
+//@ ensures result == ctx && ctx.funcCheck == checkFn && ctx.funcCall == script.FuncCall && ctx.name == script.Name
+//@ ensures ctx.stackCur != nil && fresh(ctx.stackCur) && ctx.stackCur.depth == 0 && len(ctx.callRef) == 0
+
+// ---- the dispatcher -------------------------------------------------------------------
+
+//@ func RunStmtCheck
+//@ props C08
+//@ observe depth int = len(ctxCheck.forstmt)
+//@ requires ctx.stackCur != nil && ctx.stackCur.depth >= 0
+//@ modifies checkFrame
+//@ ensures ctx.stackCur != nil && ctx.stackCur.depth >= old(ctx.stackCur.depth)
+//@ ensures result == nil ==> ctx.stackCur == old(ctx.stackCur)
+//@ ensures result == nil ==> len(ctxCheck.forstmt) == old(len(ctxCheck.forstmt))
+// every compound kind is handed to its traversal function, at the same loop depth, and the verdict is that function's verdict
+//@ ownensures node != nil && node.NodeType == ast.TypeListLiteral ==> ncalls(RunListInitExprCheck) == 1 && callarg(RunListInitExprCheck, 0, 2) == node.elem.(*ast.ListLiteral) && callres(RunListInitExprCheck, 0, 0) == result
+//@ ownensures node != nil && node.NodeType == ast.TypeMapLiteral ==> ncalls(RunMapInitExprCheck) == 1 && callarg(RunMapInitExprCheck, 0, 2) == node.elem.(*ast.MapLiteral) && callres(RunMapInitExprCheck, 0, 0) == result
+//@ ownensures node != nil && node.NodeType == ast.TypeParenExpr ==> ncalls(RunParenExprCheck) == 1 && callarg(RunParenExprCheck, 0, 2) == node.elem.(*ast.ParenExpr) && callres(RunParenExprCheck, 0, 0) == result
+//@ ownensures node != nil && node.NodeType == ast.TypeAttrExpr ==> ncalls(RunAttrExprCheck) == 1 && callarg(RunAttrExprCheck, 0, 2) == node.elem.(*ast.AttrExpr) && callres(RunAttrExprCheck, 0, 0) == result
+//@ ownensures node != nil && node.NodeType == ast.TypeIndexExpr ==> ncalls(RunIndexExprGetCheck) == 1 && callarg(RunIndexExprGetCheck, 0, 2) == node.elem.(*ast.IndexExpr) && callres(RunIndexExprGetCheck, 0, 0) == result
+//@ ownensures node != nil && node.NodeType == ast.TypeInExpr ==> ncalls(RunInExprCheck) == 1 && callarg(RunInExprCheck, 0, 2) == node.elem.(*ast.InExpr) && callres(RunInExprCheck, 0, 0) == result
+//@ ownensures node != nil && node.NodeType == ast.TypeArithmeticExpr ==> ncalls(RunArithmeticExprCheck) == 1 && callarg(RunArithmeticExprCheck, 0, 2) == node.elem.(*ast.ArithmeticExpr) && callres(RunArithmeticExprCheck, 0, 0) == result
+//@ ownensures node != nil && node.NodeType == ast.TypeConditionalExpr ==> ncalls(RunConditionExprCheck) == 1 && callarg(RunConditionExprCheck, 0, 2) == node.elem.(*ast.ConditionalExpr) && callres(RunConditionExprCheck, 0, 0) == result
+//@ ownensures node != nil && node.NodeType == ast.TypeUnaryExpr ==> ncalls(RunUnaryExprCheck) == 1 && callarg(RunUnaryExprCheck, 0, 2) == node.elem.(*ast.UnaryExpr) && callres(RunUnaryExprCheck, 0, 0) == result
+//@ ownensures node != nil && node.NodeType == ast.TypeAssignmentExpr ==> ncalls(RunAssignmentExprCheck) == 1 && callarg(RunAssignmentExprCheck, 0, 2) == node.elem.(*ast.AssignmentExpr) && callres(RunAssignmentExprCheck, 0, 0) == result
+//@ ownensures node != nil && node.NodeType == ast.TypeCallExpr ==> ncalls(RunCallExprCheck) == 1 && callarg(RunCallExprCheck, 0, 2) == node.elem.(*ast.CallExpr) && callres(RunCallExprCheck, 0, 0) == result
+//@ ownensures node != nil && node.NodeType == ast.TypeSliceExpr ==> ncalls(RunSliceExprCheck) == 1 && callarg(RunSliceExprCheck, 0, 2) == node.elem.(*ast.SliceExpr) && callres(RunSliceExprCheck, 0, 0) == result
+//@ ownensures node != nil && node.NodeType == ast.TypeIfelseStmt ==> ncalls(RunIfElseStmtCheck) == 1 && callarg(RunIfElseStmtCheck, 0, 2) == node.elem.(*ast.IfelseStmt) && callres(RunIfElseStmtCheck, 0, 0) == result
+//@ ownensures node != nil && node.NodeType == ast.TypeForStmt ==> ncalls(RunForStmtCheck) == 1 && callarg(RunForStmtCheck, 0, 2) == node.elem.(*ast.ForStmt) && callres(RunForStmtCheck, 0, 0) == result && callobs(RunForStmtCheck, 0, depth) == old(len(ctxCheck.forstmt))
+//@ ownensures node != nil && node.NodeType == ast.TypeForInStmt ==> ncalls(RunForInStmtCheck) == 1 && callarg(RunForInStmtCheck, 0, 2) == node.elem.(*ast.ForInStmt) && callres(RunForInStmtCheck, 0, 0) == result && callobs(RunForInStmtCheck, 0, depth) == old(len(ctxCheck.forstmt))
+//@ ownensures node != nil && node.NodeType == ast.TypeBreakStmt ==> ncalls(RunBreakStmtCheck) == 1 && callres(RunBreakStmtCheck, 0, 0) == result && callobs(RunBreakStmtCheck, 0, depth) == old(len(ctxCheck.forstmt))
+//@ ownensures node != nil && node.NodeType == ast.TypeContinueStmt ==> ncalls(RunContinueStmtCheck) == 1 && callres(RunContinueStmtCheck, 0, 0) == result && callobs(RunContinueStmtCheck, 0, depth) == old(len(ctxCheck.forstmt))
+// leaves are accepted
+//@ ownensures node == nil || node.NodeType == ast.TypeIdentifier || node.NodeType == ast.TypeStringLiteral || node.NodeType == ast.TypeFloatLiteral || node.NodeType == ast.TypeIntegerLiteral || node.NodeType == ast.TypeBoolLiteral || node.NodeType == ast.TypeNilLiteral ==> result == nil
+
+//@ func RunStmtsCheck
+//@ like RunStmtCheck
+//@ props C08
+//@ observe depth int = len(ctxCheck.forstmt)
+//@ ensures result == nil ==> ncalls(RunStmtCheck) == tomath(len(nodes))
+//@ ensures forall k mathint :: 0 <= k && k < ncalls(RunStmtCheck) ==> callarg(RunStmtCheck, k, 2) == nodes[toint(k)] && callobs(RunStmtCheck, k, depth) == old(len(ctxCheck.forstmt))
+//@ ensures result == nil ==> (forall k mathint :: 0 <= k && k < ncalls(RunStmtCheck) ==> callres(RunStmtCheck, k, 0) == nil)
+//@ ensures result != nil ==> ncalls(RunStmtCheck) >= 1 && result == callres(RunStmtCheck, ncalls(RunStmtCheck) - 1, 0)
+//@ loop 1
+//@ invariant ctx.stackCur == old(ctx.stackCur) && len(ctxCheck.forstmt) == old(len(ctxCheck.forstmt))
+//@ invariant ncalls(RunStmtCheck) == tomath(rangeindex) + 1
+//@ invariant forall k mathint :: 0 <= k && k < ncalls(RunStmtCheck) ==> callarg(RunStmtCheck, k, 2) == nodes[toint(k)] && callres(RunStmtCheck, k, 0) == nil && callobs(RunStmtCheck, k, depth) == old(len(ctxCheck.forstmt))
+
+// ---- expressions ------------------------------------------------------------------------
+
+//@ func RunListInitExprCheck
+//@ like RunStmtCheck
+//@ props C08
+//@ ensures result == nil ==> ncalls(RunStmtCheck) == tomath(len(expr.List))
+//@ ensures result == nil ==> (forall k mathint :: 0 <= k && k < ncalls(RunStmtCheck) ==> callarg(RunStmtCheck, k, 2) == expr.List[toint(k)] && callres(RunStmtCheck, k, 0) == nil && callobs(RunStmtCheck, k, depth) == old(len(ctxCheck.forstmt)))
+//@ ensures result != nil ==> ncalls(RunStmtCheck) >= 1 && result == callres(RunStmtCheck, ncalls(RunStmtCheck) - 1, 0)
+//@ loop 1
+//@ invariant ctx.stackCur == old(ctx.stackCur) && len(ctxCheck.forstmt) == old(len(ctxCheck.forstmt))
+//@ invariant ncalls(RunStmtCheck) == tomath(rangeindex) + 1
+//@ invariant forall k mathint :: 0 <= k && k < ncalls(RunStmtCheck) ==> callarg(RunStmtCheck, k, 2) == expr.List[toint(k)] && callres(RunStmtCheck, k, 0) == nil && callobs(RunStmtCheck, k, depth) == old(len(ctxCheck.forstmt))
+
+//@ spec badMapKey(t ast.NodeType) bool = t == ast.TypeFloatLiteral || t == ast.TypeIntegerLiteral || t == ast.TypeBoolLiteral || t == ast.TypeNilLiteral || t == ast.TypeListLiteral || t == ast.TypeMapLiteral
+
+//@ func RunMapInitExprCheck
+//@ like RunStmtCheck
+//@ props C08
+//@ ensures result == nil ==> ncalls(RunStmtCheck) == 2 * tomath(len(expr.KeyValeList))
+//@ ensures result == nil ==> (forall i :: 0 <= i && i < len(expr.KeyValeList) ==> !badMapKey(expr.KeyValeList[i][0].NodeType))
+//@ ensures result == nil ==> (forall i :: 0 <= i && i < len(expr.KeyValeList) ==> callarg(RunStmtCheck, 2 * tomath(i), 2) == expr.KeyValeList[i][0] && callarg(RunStmtCheck, 2 * tomath(i) + 1, 2) == expr.KeyValeList[i][1])
+//@ ensures result == nil ==> (forall k mathint :: 0 <= k && k < ncalls(RunStmtCheck) ==> callres(RunStmtCheck, k, 0) == nil && callobs(RunStmtCheck, k, depth) == old(len(ctxCheck.forstmt)))
+//@ loop 1
+//@ invariant ctx.stackCur == old(ctx.stackCur) && len(ctxCheck.forstmt) == old(len(ctxCheck.forstmt))
+//@ invariant ncalls(RunStmtCheck) == 2 * (tomath(rangeindex) + 1)
+//@ invariant forall i :: 0 <= i && i <= rangeindex ==> !badMapKey(expr.KeyValeList[i][0].NodeType)
+//@ invariant forall i :: 0 <= i && i <= rangeindex ==> callarg(RunStmtCheck, 2 * tomath(i), 2) == expr.KeyValeList[i][0] && callarg(RunStmtCheck, 2 * tomath(i) + 1, 2) == expr.KeyValeList[i][1]
+//@ invariant forall k mathint :: 0 <= k && k < ncalls(RunStmtCheck) ==> callres(RunStmtCheck, k, 0) == nil && callobs(RunStmtCheck, k, depth) == old(len(ctxCheck.forstmt))
+
+//@ func RunParenExprCheck
+//@ like RunStmtCheck
+//@ props C08
+//@ ensures ncalls(RunStmtCheck) == 1 && callarg(RunStmtCheck, 0, 2) == expr.Param && callres(RunStmtCheck, 0, 0) == result && callobs(RunStmtCheck, 0, depth) == old(len(ctxCheck.forstmt))
+
+// two operands, both visited when accepted; a rejection is the rejection of the operand visited last
+//@ spec visited2(a *ast.Node, b *ast.Node, d int) bool = ncalls(RunStmtCheck) == 2 && callarg(RunStmtCheck, 0, 2) == a && callarg(RunStmtCheck, 1, 2) == b
+//@ | && callres(RunStmtCheck, 0, 0) == nil && callres(RunStmtCheck, 1, 0) == nil && callobs(RunStmtCheck, 0, depth) == d && callobs(RunStmtCheck, 1, depth) == d
+//@ spec lastRejected(r *errchain.PlError) bool = ncalls(RunStmtCheck) >= 1 && r == callres(RunStmtCheck, ncalls(RunStmtCheck) - 1, 0)
+
+//@ func RunAttrExprCheck
+//@ like RunStmtCheck
+//@ props C08
+//@ ensures result == nil ==> visited2(expr.Obj, expr.Attr, old(len(ctxCheck.forstmt)))
+//@ ensures result != nil ==> lastRejected(result)
+
+//@ func RunArithmeticExprCheck
+//@ like RunStmtCheck
+//@ props C08
+//@ ensures result == nil ==> visited2(expr.LHS, expr.RHS, old(len(ctxCheck.forstmt)))
+//@ ensures result != nil ==> lastRejected(result)
+
+//@ func RunConditionExprCheck
+//@ like RunStmtCheck
+//@ props C08
+//@ ensures result == nil ==> visited2(expr.LHS, expr.RHS, old(len(ctxCheck.forstmt)))
+//@ ensures result != nil ==> lastRejected(result)
+
+//@ func RunInExprCheck
+//@ like RunStmtCheck
+//@ props C08
+//@ ensures result == nil ==> visited2(expr.RHS, expr.LHS, old(len(ctxCheck.forstmt)))
+//@ ensures result != nil ==> lastRejected(result)
+
+//@ func RunUnaryExprCheck
+//@ like RunStmtCheck
+//@ props C08
+//@ ensures ncalls(RunStmtCheck) == 1 && callarg(RunStmtCheck, 0, 2) == expr.RHS && callres(RunStmtCheck, 0, 0) == result && callobs(RunStmtCheck, 0, depth) == old(len(ctxCheck.forstmt))
+
+//@ func RunIndexExprGetCheck
+//@ like RunStmtCheck
+//@ props C08
+//@ ensures result == nil ==> ncalls(RunStmtCheck) == tomath(len(expr.Index))
+//@ ensures result == nil ==> (forall k mathint :: 0 <= k && k < ncalls(RunStmtCheck) ==> callarg(RunStmtCheck, k, 2) == expr.Index[toint(k)] && callres(RunStmtCheck, k, 0) == nil && callobs(RunStmtCheck, k, depth) == old(len(ctxCheck.forstmt)))
+//@ ensures result != nil ==> lastRejected(result)
+//@ loop 1
+//@ invariant ctx.stackCur == old(ctx.stackCur) && len(ctxCheck.forstmt) == old(len(ctxCheck.forstmt))
+//@ invariant ncalls(RunStmtCheck) == tomath(rangeindex) + 1
+//@ invariant forall k mathint :: 0 <= k && k < ncalls(RunStmtCheck) ==> callarg(RunStmtCheck, k, 2) == expr.Index[toint(k)] && callres(RunStmtCheck, k, 0) == nil && callobs(RunStmtCheck, k, depth) == old(len(ctxCheck.forstmt))
+
+// a child is visited and accepted
+//@ spec visitedOK(n *ast.Node, d int) bool = exists k mathint :: 0 <= k && k < ncalls(RunStmtCheck) && callarg(RunStmtCheck, k, 2) == n && callres(RunStmtCheck, k, 0) == nil && callobs(RunStmtCheck, k, depth) == d
+
+// object, and every bound and step that is present
+//@ func RunSliceExprCheck
+//@ like RunStmtCheck
+//@ props C08
+//@ ensures result == nil ==> visitedOK(expr.Obj, old(len(ctxCheck.forstmt)))
+//@ ensures result == nil && expr.Start != nil ==> visitedOK(expr.Start, old(len(ctxCheck.forstmt)))
+//@ ensures result == nil && expr.End != nil ==> visitedOK(expr.End, old(len(ctxCheck.forstmt)))
+//@ ensures result == nil && expr.Step != nil ==> visitedOK(expr.Step, old(len(ctxCheck.forstmt)))
+//@ ensures result != nil ==> lastRejected(result)
+
+// both sides, every operand
+//@ func RunAssignmentExprCheck
+//@ like RunStmtCheck
+//@ props C08
+//@ ensures result == nil ==> ncalls(RunStmtCheck) == tomath(len(expr.LHS)) + tomath(len(expr.RHS))
+//@ ensures result == nil ==> (forall i :: 0 <= i && i < len(expr.LHS) ==> callarg(RunStmtCheck, tomath(i), 2) == expr.LHS[i])
+//@ ensures result == nil ==> (forall i :: 0 <= i && i < len(expr.RHS) ==> callarg(RunStmtCheck, tomath(len(expr.LHS)) + tomath(i), 2) == expr.RHS[i])
+//@ ensures result == nil ==> (forall k mathint :: 0 <= k && k < ncalls(RunStmtCheck) ==> callres(RunStmtCheck, k, 0) == nil && callobs(RunStmtCheck, k, depth) == old(len(ctxCheck.forstmt)))
+//@ ensures result != nil ==> lastRejected(result)
+//@ loop 1
+//@ invariant ctx.stackCur == old(ctx.stackCur) && len(ctxCheck.forstmt) == old(len(ctxCheck.forstmt))
+//@ invariant ncalls(RunStmtCheck) == tomath(rangeindex) + 1
+//@ invariant forall i :: 0 <= i && i <= rangeindex ==> callarg(RunStmtCheck, tomath(i), 2) == expr.LHS[i]
+//@ invariant forall k mathint :: 0 <= k && k < ncalls(RunStmtCheck) ==> callres(RunStmtCheck, k, 0) == nil && callobs(RunStmtCheck, k, depth) == old(len(ctxCheck.forstmt))
+//@ loop 2
+//@ invariant ctx.stackCur == old(ctx.stackCur) && len(ctxCheck.forstmt) == old(len(ctxCheck.forstmt))
+//@ invariant ncalls(RunStmtCheck) == tomath(len(expr.LHS)) + tomath(rangeindex) + 1
+//@ invariant forall i :: 0 <= i && i < len(expr.LHS) ==> callarg(RunStmtCheck, tomath(i), 2) == expr.LHS[i]
+//@ invariant forall i :: 0 <= i && i <= rangeindex ==> callarg(RunStmtCheck, tomath(len(expr.LHS)) + tomath(i), 2) == expr.RHS[i]
+//@ invariant forall k mathint :: 0 <= k && k < ncalls(RunStmtCheck) ==> callres(RunStmtCheck, k, 0) == nil && callobs(RunStmtCheck, k, depth) == old(len(ctxCheck.forstmt))
+
+// a call is accepted only when the function is registered, its arguments were accepted and
+// the function's own checker - the one registered under that name - accepted this call
+//@ func RunCallExprCheck
+//@ like RunStmtCheck
+//@ props C08
+//@ ensures result == nil ==> dom(ctx.funcCall, expr.Name) && dom(ctx.funcCheck, expr.Name)
+//@ ensures result == nil ==> ncalls(RunStmtsCheck) == 1 && callarg(RunStmtsCheck, 0, 2) == old(expr.Param) && callres(RunStmtsCheck, 0, 0) == nil && callobs(RunStmtsCheck, 0, depth) == old(len(ctxCheck.forstmt))
+//@ ensures result == nil ==> ncalls(FuncCheck) == 1 && callfn(FuncCheck, 0) == ctx.funcCheck[expr.Name] && callarg(FuncCheck, 0, 0) == ctx && callarg(FuncCheck, 0, 1) == expr && callres(FuncCheck, 0, 0) == nil
+// a registered function whose arguments are accepted is rejected only by its own checker
+//@ ensures result != nil && old(dom(ctx.funcCall, expr.Name)) && old(dom(ctx.funcCheck, expr.Name)) && ncalls(RunStmtsCheck) == 1 && callres(RunStmtsCheck, 0, 0) == nil ==> ncalls(FuncCheck) == 1 && callres(FuncCheck, 0, 0) == result
+
+// ---- statements ---------------------------------------------------------------------------
+
+// every condition and every block (blocks at the same loop depth), and the else block
+//@ func RunIfElseStmtCheck
+//@ like RunStmtCheck
+//@ props C08
+//@ observe depth int = len(ctxCheck.forstmt)
+//@ ensures result == nil ==> ncalls(RunStmtCheck) == tomath(len(stmt.IfList))
+//@ ensures result == nil ==> (forall k mathint :: 0 <= k && k < ncalls(RunStmtCheck) ==> callarg(RunStmtCheck, k, 2) == stmt.IfList[toint(k)].Condition && callres(RunStmtCheck, k, 0) == nil && callobs(RunStmtCheck, k, depth) == old(len(ctxCheck.forstmt)))
+//@ ensures result == nil ==> (forall i :: 0 <= i && i < len(stmt.IfList) && stmt.IfList[i].Block != nil ==> blockOK(stmt.IfList[i].Block.Stmts, old(len(ctxCheck.forstmt))))
+//@ ensures result == nil && stmt.Else != nil ==> blockOK(stmt.Else.Stmts, old(len(ctxCheck.forstmt)))
+//@ loop 1
+//@ invariant ctx.stackCur != nil && ctx.stackCur.depth == old(ctx.stackCur.depth) + 1 && ctx.stackCur.Before == old(ctx.stackCur) && len(ctxCheck.forstmt) == old(len(ctxCheck.forstmt))
+//@ invariant ncalls(RunStmtCheck) == tomath(rangeindex) + 1
+//@ invariant forall k mathint :: 0 <= k && k < ncalls(RunStmtCheck) ==> callarg(RunStmtCheck, k, 2) == stmt.IfList[toint(k)].Condition && callres(RunStmtCheck, k, 0) == nil && callobs(RunStmtCheck, k, depth) == old(len(ctxCheck.forstmt))
+//@ invariant forall i :: 0 <= i && i <= rangeindex && stmt.IfList[i].Block != nil ==> blockOK(stmt.IfList[i].Block.Stmts, old(len(ctxCheck.forstmt)))
+
+// a block is visited and accepted at loop depth d
+//@ spec blockOK(b ast.Stmts, d int) bool = exists k mathint :: 0 <= k && k < ncalls(RunStmtsCheck) && callarg(RunStmtsCheck, k, 2) == b && callres(RunStmtsCheck, k, 0) == nil && callobs(RunStmtsCheck, k, depth) == d
+
+// init and condition at the enclosing depth; body and loop clause one level deeper; the depth is restored
+//@ func RunForStmtCheck
+//@ like RunStmtCheck
+//@ props C08
+//@ observe depth int = len(ctxCheck.forstmt)
+//@ ensures result == nil ==> ncalls(RunStmtCheck) == 3 && callarg(RunStmtCheck, 0, 2) == stmt.Init && callarg(RunStmtCheck, 1, 2) == stmt.Cond && callarg(RunStmtCheck, 2, 2) == stmt.Loop
+//@ ensures result == nil ==> callres(RunStmtCheck, 0, 0) == nil && callres(RunStmtCheck, 1, 0) == nil && callres(RunStmtCheck, 2, 0) == nil
+//@ ensures result == nil ==> callobs(RunStmtCheck, 0, depth) == old(len(ctxCheck.forstmt)) && callobs(RunStmtCheck, 1, depth) == old(len(ctxCheck.forstmt))
+//@ ensures result == nil && stmt.Body != nil ==> ncalls(RunStmtsCheck) == 1 && callarg(RunStmtsCheck, 0, 2) == stmt.Body.Stmts && callres(RunStmtsCheck, 0, 0) == nil && callobs(RunStmtsCheck, 0, depth) == old(len(ctxCheck.forstmt)) + 1
+
+//@ func RunForInStmtCheck
+//@ like RunStmtCheck
+//@ props C08
+//@ observe depth int = len(ctxCheck.forstmt)
+//@ ensures result == nil ==> ncalls(RunStmtCheck) == 1 && callarg(RunStmtCheck, 0, 2) == stmt.Iter && callres(RunStmtCheck, 0, 0) == nil && callobs(RunStmtCheck, 0, depth) == old(len(ctxCheck.forstmt))
+//@ ensures result == nil && stmt.Body != nil ==> ncalls(RunStmtsCheck) == 1 && callarg(RunStmtsCheck, 0, 2) == stmt.Body.Stmts && callres(RunStmtsCheck, 0, 0) == nil && callobs(RunStmtsCheck, 0, depth) == old(len(ctxCheck.forstmt)) + 1
+
+// break / continue are accepted exactly inside a loop body
+//@ func RunBreakStmtCheck
+//@ like RunStmtCheck
+//@ props C08
+//@ observe depth int = len(ctxCheck.forstmt)
+//@ ensures result == nil <==> old(len(ctxCheck.forstmt)) > 0
+
+//@ func RunContinueStmtCheck
+//@ like RunStmtCheck
+//@ props C08
+//@ observe depth int = len(ctxCheck.forstmt)
+//@ ensures result == nil <==> old(len(ctxCheck.forstmt)) > 0
+
+// ---- entry ----------------------------------------------------------------------------------
+
+// the whole script is checked, at loop depth 0, against the given checker table; the verdict is
+// the traversal's verdict
+//@ func (*Script).Check
+//@ props C08
+//@ ensures s != nil ==> ncalls(InitCtxForCheck) == 1 && callarg(InitCtxForCheck, 0, 1) == s && callarg(InitCtxForCheck, 0, 2) == funcsCheck
+//@ ensures s != nil ==> ncalls(RunStmtsCheck) == 1 && callarg(RunStmtsCheck, 0, 0) == callres(GetContext, 0, 0) && callarg(RunStmtsCheck, 0, 2) == s.Ast && callres(RunStmtsCheck, 0, 0) == result && callobs(RunStmtsCheck, 0, depth) == 0
+
+//@ func NewStack
+//@ props C01 C18
+//@ modifies nothing
+//@ ensures result != nil && fresh(result) && result.Data != nil && result.Before == nil
